@@ -158,6 +158,8 @@ func runLimit(c *core.Ctx) []core.Obligation {
 			admits = "?"
 		}
 		switch {
+		case when == "unstored":
+			b.addP(props, core.Violation, key, pos, fmt.Sprintf("%s compares the depth plus one with the limit but never stores the incremented depth: every nested value starts from the same depth again, the limit is never reached and a deeply nested document exhausts the stack", name))
 		case strings.HasPrefix(admits, "≤limit-1"):
 			b.addP(props, core.Violation, key, pos, fmt.Sprintf("%s rejects a document whose deepest container is at depth maxNestingDepth (the operand counts the container being opened and is compared with %s): encoding/json and the other paths of this package accept it", name, op))
 		case strings.HasPrefix(admits, "≤limit+1"):
@@ -211,6 +213,7 @@ func counterPhase(x ssa.Value, cmp *ssa.BinOp) string {
 						return "post"
 					}
 				}
+				return "unstored"
 			}
 		}
 	}
